@@ -108,7 +108,9 @@ pub fn eval_on_impl(spec: &CtxSpec, src: Option<&str>, ast: Option<&Sx>) -> Stri
     let log: Log = Arc::new(Mutex::new(vec![]));
     let r = quietly(|| catch_unwind(AssertUnwindSafe(|| {
         spec.with_context(&log, |ctx| match src {
-            Some(s) => match Program::compile(s) {
+            // both public ways of compiling a source text are used (chosen by the text's length,
+            // so a case replays the same way): `Program::compile` and `Program::try_from`
+            Some(s) => match if s.len() % 3 == 1 { Program::try_from(s) } else { Program::compile(s) } {
                 Ok(p) => Some(p.execute(ctx)),
                 Err(_) => None,
             },
@@ -135,7 +137,7 @@ pub fn variables_supplied(case: &Case) -> Vec<String> {
         .iter()
         .chain(spec.scopes.iter().flatten())
         .take(40)
-        .map(|(n, v)| format!("{n}: {}", if crate::ctx::supplied_as_host_data(n, v) { "add_variable(plain Rust data)" } else { "add_variable_from_value(Value)" }))
+        .map(|(n, v)| format!("{n}: {}", match crate::ctx::supply_route(n, v) { 1 => "add_variable(plain Rust data)", 2 => "add_variable_from_value(Rust data converted by the crate's From impls)", _ => "add_variable_from_value(Value)" }))
         .collect()
 }
 
